@@ -40,3 +40,16 @@ def _c04_tmp(repo, rep):
     S.r17(repo, rep)
 
 PROPS["C04"] = _c04_tmp
+
+
+def _rows(repo, rep):
+    from .rules import rows as R
+    for n in ("Gillespie_SIR", "Gillespie_SIS"):
+        R.r9_gillespie(repo, rep, n)
+    for n in ("fast_nonMarkov_SIR", "fast_SIS", "fast_nonMarkov_SIS"):
+        R.r9_event_driven(repo, rep, n)
+    for n in ("Gillespie_simple_contagion", "Gillespie_complex_contagion"):
+        R.r9_generic(repo, rep, n)
+    R.r9_discrete(repo, rep)
+
+PROPS["C04"] = lambda repo, rep: (_c04_tmp(repo, rep), _rows(repo, rep))
